@@ -33,7 +33,7 @@ SPEC = {
     "rule": ("grid cells (format string, output mode, input name) for one group - complete - plus random command lines "
              "with 2-4 groups; non-trivial = invocation with >= 1 format parameter or >= 2 groups or a rejected near-miss, "
              "judged against the model; distinct = distinct argv"),
-    "monitors": ["reject-before-assembly", "write-events", "content-equals-format-output", "printed-output", "process-exit-and-colour", "real-filesystem", "define-meaning", "colour-off"],
+    "monitors": ["reject-before-assembly", "write-events", "content-equals-format-output", "printed-output", "process-exit-and-colour", "real-filesystem", "define-meaning", "define-names-a-constant", "colour-off"],
     "min_nontrivial": {"quick": 1500, "thorough": 20000},
     "assumptions": ["driver::drive is the same code the binary runs (hook H2 only makes it reachable from the library)"],
 }
@@ -243,6 +243,16 @@ def judge(ctx, worker, argv, model, files):
     if lib.abnormal(ref):
         ctx.excluded += 1
         return None
+    if files.get(model["inputs"][0]) == PROGRAM and len(files) == 1:
+        # independent of the library's verdict: a define that names no constant of PROGRAM (unknown name or a label) is an
+        # error wherever it stands among the defines
+        stray = [d["name"] for d in defs if d["name"] not in DEFAULTS]
+        if stray:
+            ctx.monitor("define-names-a-constant")
+            if lib.ok(ref):
+                ctx.violation("cli-model", {"kind": "define-without-constant-accepted", "last_define_is_stray": defs[-1]["name"] not in DEFAULTS}, job,
+                              {"error": "unused define", "names": stray}, {"hex": (ref.get("out") or {}).get("hex"), "defines": defs})
+                return False
     if not lib.ok(ref):
         # assembly itself fails (e.g. define of a missing constant, budget too small): driver must fail, nothing written
         if rec.get("drive_ok") or any(w["ok"] for w in writes):
